@@ -270,6 +270,7 @@ def gen_case(tape, tier):
         for a in axes:
             parts = [dict(p, **{a: x}) for p in parts for x in per_axis[a]]
         parts = tape.shuffle(parts, "part-order")[:8]
+        n_real_parts = len(parts)
         if tape.coin(0.2, "empty-part"):
             # a part that selects nothing (a worker that got an empty chunk): slice(0, 0), slice(None, 0), slice(n, n)
             a = tape.pick(axes, "empty-axis")
@@ -282,7 +283,7 @@ def gen_case(tape, tier):
             executor = {"kind": "single", "ex": {"mode": tape.pick(["thread", "process"], "mode"),
                                                  "workers": 1 + tape.choose(3, "workers"), "start": tape.pick(["fifo", "any"], "start"),
                                                  "pickle_at": "submit"}}
-        case = {"family": "parts", "workload": w, "parts": parts, "complete": len(parts) == _n_parts(per_axis),
+        case = {"family": "parts", "workload": w, "parts": parts, "complete": n_real_parts == _n_parts(per_axis),
                 "config": {"storage": C.gen_storage(tape, w), "executor": executor, "preempt": tape.pick([0.1, 0.5], "preempt"),
                            "show_progress": bool(tape.coin(0.15, "show-progress"))}}
         if output_fns:
